@@ -269,6 +269,43 @@ def partial_f(x: int):
 def d_f() -> int: ...
 
 
+def deco_to_str(fn: Callable[[], int]) -> Callable[[], str]: ...
+def deco_untyped(fn): return fn
+def deco_same(fn: Callable[[], T]) -> Callable[[], T]: ...
+
+
+@deco_to_str
+def d_str() -> int: ...
+
+
+@deco_untyped
+def d_any() -> int: ...
+
+
+@deco_same
+def d_same() -> int: ...
+
+
+@deco_to_str
+@functools.cache
+def d_str2() -> int: ...
+
+
+class Deco:
+    @deco_to_str
+    @staticmethod
+    def sm() -> int: ...
+
+    @functools.cached_property
+    def cp(self) -> int: ...
+
+    @deco_untyped
+    def um(self) -> int: ...
+
+
+v_deco: Deco = Deco()
+
+
 @overload
 def o_f(x: int) -> int: ...
 @overload
@@ -346,7 +383,7 @@ def fixed_operands() -> list[tuple[str, str, str | None, bool]]:
     add("attr-instance", ["v_user.items", "v_user.table", "v_user.inst_list", "p_user.items", "p_user.me.items", "p_user.tags", "p_user.table"], lvalue=True)
     add("call-function", ["f_bool()", "f_int()", "f_float()", "f_str()", "f_bytes()", "f_list()", "f_dict()", "f_set()", "f_tuple()", "f_tuplev()", "f_nt()",
                           "f_user()", "f_myint()", "f_mylist()", "f_any()", "f_opt()", "f_union()", "f_alias()", "f_none()", "f_path()", "f_lit()", "f_ni()", "f_ie()",
-                          "f_t(1)", "f_t(v_myint)", "f_listt(1)", "u_f()", "partial_f(1)", "d_f()", "o_f(1)", 'o_f("")', "co_int()", "v_callable()", "v_type_int()",
+                          "f_t(1)", "f_t(v_myint)", "f_listt(1)", "u_f()", "partial_f(1)", "d_f()", "d_str()", "d_any()", "d_same()", "d_str2()", "Deco.sm()", "v_deco.sm()", "v_deco.cp", "v_deco.um()", "d_str", "d_any", "o_f(1)", 'o_f("")', "co_int()", "v_callable()", "v_type_int()",
                           "len(v_list)", "sorted(v_list)", "abs(v_int)", "repr(v_int)", "ord('a')", "chr(1)", "isinstance(v_int, int)", "hash(1)", "id(1)",
                           "os.getcwd()", "os.fspath(v_path)", "math.floor(1.5)", "math.sqrt(2)", "max(1, 2)", "min(v_list)", "sum(v_list)", "round(1.5)", "divmod(1, 2)",
                           "reversed(v_list)", "enumerate(v_list)", "zip(v_list, v_list)", "range(3)", "iter(v_list)", "next(iter(v_list))", "input()", "v_user()"])
